@@ -23,6 +23,16 @@ Theorem C18_structure : forall (F : list N -> list N) (t : N) (epoch : bytes) (m
               (filter (fun b => (t <=? N.of_nat (length (snd b)))%N) (collect msgs))).
 Proof. reflexivity. Qed.
 
+(* the buckets: one per distinct tag, in the order tags are first seen, each holding exactly the reports
+   that carry the tag, in input order (so a measurement appears at most once, and none of its reports is lost
+   or duplicated) *)
+Theorem C18_buckets : forall msgs : list message,
+  collect msgs = map (fun T => (T, filter (has_tag T) msgs)) (first_tags msgs).
+Proof. exact collect_spec. Qed.
+Theorem C18_tags_once : forall msgs : list message,
+  NoDup (first_tags msgs) /\ (forall T, ~ In T (first_tags msgs) -> filter (has_tag T) msgs = []).
+Proof. exact first_tags_inv. Qed.
+
 Theorem C18_exact_aux_refuted : exists (m : bytes) (aux : option bytes),
   parse_payload (payload m aux) = Ok (m, None) /\ aux <> None.
 Proof. exact exact_aux_refuted. Qed.
